@@ -24,6 +24,7 @@ import (
 	"github.com/ethereum/go-ethereum/core/rawdb"
 	"github.com/ethereum/go-ethereum/core/types"
 	"github.com/ethereum/go-ethereum/crypto"
+	"github.com/ethereum/go-ethereum/ethdb"
 	"github.com/ethereum/go-ethereum/params"
 	"github.com/ethereum/go-ethereum/rlp"
 	"github.com/ethereum/go-ethereum/trie"
@@ -81,6 +82,7 @@ type World struct {
 	blocks    []*types.Block // generated chain (block i+1 at index i)
 	genesis   *types.Block
 	chain     *core.BlockChain
+	db        ethdb.Database
 	imported  int // number of generated blocks imported into chain
 
 	refs map[common.Hash]*RefState // by state root
@@ -303,7 +305,8 @@ func NewWorld(sp *StatePlan, blocks []BlockPlan, schemeA string, initial int) *W
 		TxLookupLimit:  -1,
 		ArchiveMode:    schemeA == rawdb.HashScheme, // keep every state servable in hash mode
 	}
-	chain, err := core.NewBlockChain(rawdb.NewMemoryDatabase(), gspec, engine, cfg)
+	w.db = rawdb.NewMemoryDatabase()
+	chain, err := core.NewBlockChain(w.db, gspec, engine, cfg)
 	if err != nil {
 		simcore.Harnessf("new blockchain: %v", err)
 	}
@@ -416,7 +419,7 @@ func (w *World) Ref(root common.Hash) *RefState {
 			}
 		}
 		if ch := common.BytesToHash(ra.Acc.CodeHash); ch != types.EmptyCodeHash {
-			code := rawdb.ReadCode(w.chain.StateCache().TrieDB().Disk(), ch)
+			code := rawdb.ReadCode(w.db, ch)
 			if len(code) == 0 || crypto.Keccak256Hash(code) != ch {
 				simcore.Harnessf("node A misses code %x", ch)
 			}
